@@ -48,6 +48,7 @@ type run struct {
 	stuck      bool
 	inTx       bool
 	stalled    map[*simmongo.Pending]int // database commands the simulated database is slow to answer
+	restLog    []string                  // scenario runs: outcome of every REST call
 	verHist    map[string][]string       // scenario runs: versions seen in each user document, in order
 	storm      map[string]bool           // clients that re-send a refused request without end: their requests are no longer delivered
 	evOwners   map[int][]string          // event index -> owners (calls) of its exchange
